@@ -5,6 +5,7 @@ package main
 // logged and the logs compared as well).
 
 import (
+	"sort"
 	"strconv"
 	"strings"
 
@@ -79,6 +80,14 @@ function mk(kind)
   elseif kind == "udlen" then return newud(udmtLen)
   elseif kind == "udlt" then return newud(udmtLt)
   elseif kind == "fn" then return mk
+  elseif kind == "envfn" then return loadstring("return X")            -- a fresh Lua function reading a global
+  elseif kind == "gofn" then return newgofn()                           -- a fresh host function returning (its environment).X
+  elseif kind == "thread" then return coroutine.create(function() end)
+  elseif kind == "envtbl" then return {X = 1}
+  elseif kind == "mixed" then
+    local t = {1, 2, nil, 4, a = 1, b = 2, [2.5] = 3, [true] = 4, [-1] = 5}
+    t.a = nil; t[2] = nil; t.c = "c"
+    return t
   end
   error("bad kind "..tostring(kind))
 end
@@ -108,6 +117,32 @@ function l_len(a) return #a end
 function l_getmt(a) return getmetatable(a) end
 function l_tostring(a) return tostring(a) end
 function l_next(t,k) return next(t,k) end
+function l_pairs(t) return rawdump(t) end
+-- environments: getfenv / setfenv for Lua functions, debug.getfenv / debug.setfenv for host functions, userdata, threads
+function l_getfenv(o) if type(o) == "function" and not ISGO[o] then return getfenv(o) end return debug.getfenv(o) end
+function l_setfenv(o, e)
+  if type(e) ~= "table" then error("not a table") end
+  if type(o) == "function" and not ISGO[o] then setfenv(o, e) else debug.setfenv(o, e) end
+end
+ISGO = setmetatable({}, {__mode = "k"})
+function envobs(o, e)
+  local cur
+  if type(o) == "function" and not ISGO[o] then cur = getfenv(o) else cur = debug.getfenv(o) end
+  local s = tostring(cur == e) .. ":" .. tostring(cur == _G)
+  if type(o) == "function" then local ok, r = pcall(o); s = s .. ":" .. tostring(ok) .. ":" .. name(r) end
+  return s
+end
+function l_setglobalfn(n, f) _G[n] = f end
+function callglobal(n) local f = rawget(_G, n); if type(f) ~= "function" then return type(f) end return f() end
+function fnsobs(t) return name(rawget(t, "f1") and rawget(t, "f1")()) .. "," .. name(rawget(t, "f2") and rawget(t, "f2")()) .. "|" .. rawdump(t) end
+function l_setfuncs(t, up) rawset(t, "f1", function() return up end); rawset(t, "f2", function() return up end); return t end
+-- the To* conversions as Lua defines them: truth, tonumber (numbers and numeric strings, 0 otherwise),
+-- tostring (strings and numbers, "" otherwise), type
+function l_to(v)
+  local t = type(v)
+  local conv = (t == "number" or t == "string")
+  return (not not v), conv and tonumber(v) or 0, conv and tostring(v) or "", t
+end
 GX = 5
 function l_get_GX() return GX end
 function l_get_GY() return GY end
@@ -117,9 +152,17 @@ function rawglobal(n) return rawget(_G, n) end
 function clearglobal(n) rawset(_G, n, nil) end
 -- callees of the call-contract grid
 P, FAIL = 0, 0
+-- failing callees beyond error()/runtime fault: 4 = call-stack overflow, 5 = registry overflow, 6 = a Go value panicking in a
+-- host function the callee calls (gopanic is installed by the harness)
+local BIGT
+local function big() if not BIGT then BIGT = {} for i = 1, 6000 do BIGT[i] = i end end return BIGT end
+local function deep(n) return 1 + deep(n + 1) end
+local function failmore()
+  if FAIL == 4 then deep(1) elseif FAIL == 5 then local n = select('#', unpack(big())) elseif FAIL == 6 then gopanic() end
+end
 function lcallee(...)
   cargs(select('#', ...), ...)
-  if FAIL == 1 then error("boom") elseif FAIL == 2 then local x = nil; x = x + 1 end
+  if FAIL == 1 then error("boom") elseif FAIL == 2 then local x = nil; x = x + 1 else failmore() end
   if P == 0 then return elseif P == 1 then return 7001 elseif P == 2 then return 7001, 7002
   elseif P == 3 then return 7001, 7002, 7003 elseif P == 4 then return 7001, 7002, 7003, 7004 end
   return 7001, 7002, 7003, 7004, 7005
@@ -127,10 +170,16 @@ end
 local PROD = {7001, 7002, 7003, 7004, 7005}
 function lcalleetail(...)
   cargs(select('#', ...), ...)
-  if FAIL == 1 then error({code=1}) elseif FAIL == 2 then local x = {} ; x = x.a.b end
+  if FAIL == 1 then error({code=1}) elseif FAIL == 2 then local x = {} ; x = x.a.b else failmore() end
   return unpack(PROD, 1, P)
 end
 function handler(e) return "H:" .. type(e) end
+-- error handlers that do not return normally / that run protected calls of their own
+function hraise(e) local a, b = 1, 2; error("HE:" .. type(e)) end
+function hraiseobj(e) error({code = 2}) end
+function hfault(e) local x = nil; return x.y end
+function hoverflow(e) return 1 + hoverflow(e) end
+function hpcall(e) local ok, m = pcall(error, "inner"); local ok2 = pcall(hraise, e); return "H:" .. type(e) .. tostring(ok) .. tostring(ok2) end
 -- activation chain: Lua frames with locals that must survive the callee
 function lstepM(i, ...)
   local a, b, c = i*100+1, "L"..i, i*100+3
@@ -413,6 +462,94 @@ func (w *apiWorld) objOp(L *lua.LState, a []string) {
 			// non-integral `__len` result: Go's int() truncation, compared here (not in Lean)
 			w.emit("eq objlentrunc:"+arg(2)+" "+api+" | "+strconv.Itoa(int(f)), "")
 		}
+	case "getfenv":
+		x := w.mk(L, arg(2))
+		w.cmpGetter(L, label, func(L *lua.LState) []lua.LValue { return []lua.LValue{L.GetFEnv(x)} }, "l_getfenv", 1, x)
+	case "setfenv":
+		// twins: the API on one object, setfenv / debug.setfenv on the other; observed: the environment read back, whether it
+		// is still _G, and what the function (Lua: a global read; host: a read through EnvironIndex) now sees
+		o1, o2 := w.mk(L, arg(2)), w.mk(L, arg(2))
+		e := w.mk(L, arg(3))
+		envobs := func(o lua.LValue) string {
+			r, ok := w.lcall(L, "envobs", 1, o, e)
+			if !ok {
+				return "?"
+			}
+			return "s" + hexOf(string(r[0].(lua.LString)))
+		}
+		ok1 := w.protect(L, func(L *lua.LState) { L.SetFEnv(o1, e) })
+		got := []string{w.enc(lbool(ok1)), envobs(o1), w.enc(lbool(L.GetFEnv(o1) == e))}
+		_, ok2 := w.lcall(L, "l_setfenv", 0, o2, e)
+		want := []string{w.enc(lbool(ok2)), envobs(o2), w.enc(lbool(ok2))}
+		w.emit("eq "+label+" "+strings.Join(got, " ")+" | "+strings.Join(want, " "), "")
+	case "foreach":
+		x := w.mk(L, arg(2))
+		tb, ok := x.(*lua.LTable)
+		if !ok {
+			return
+		}
+		nm := func(v lua.LValue) string {
+			switch v.Type() {
+			case lua.LTNumber, lua.LTBool, lua.LTNil:
+				return v.String()
+			case lua.LTString:
+				return "'" + v.String() + "'"
+			}
+			return "<" + v.Type().String() + ">"
+		}
+		var parts []string
+		okf := w.protect(L, func(L *lua.LState) {
+			L.ForEach(tb, func(k, v lua.LValue) { parts = append(parts, nm(k)+"="+nm(v)) })
+		})
+		sort.Strings(parts)
+		want := "?"
+		if r, ok := w.lcall(L, "l_pairs", 1, tb); ok {
+			want = "s" + hexOf(string(r[0].(lua.LString)))
+		}
+		w.emit("eq "+label+" "+w.enc(lbool(okf))+" s"+hexOf(strings.Join(parts, ","))+" | T "+want, "")
+	case "register":
+		// Register(name, fn) = the global assignment name = fn (metamethods of _G included)
+		fn := func(L *lua.LState) int { L.Push(lua.LNumber(42)); return 1 }
+		side := func(api bool) []string {
+			w.lcall(L, "resetlog", 0)
+			var ok bool
+			if api {
+				ok = w.protect(L, func(L *lua.LState) { L.Register("REGF", fn) })
+			} else {
+				_, ok = w.lcall(L, "l_setglobalfn", 0, lua.LString("REGF"), L.NewFunction(fn))
+			}
+			out := []string{w.enc(lbool(ok)), "?", w.logOf(L)}
+			if r, ok := w.lcall(L, "callglobal", 1, lua.LString("REGF")); ok {
+				out[1] = w.enc(r[0])
+			}
+			w.lcall(L, "clearglobal", 0, lua.LString("REGF"))
+			return out
+		}
+		got, want := side(true), side(false)
+		w.emit("eq "+label+" "+strings.Join(got, " ")+" | "+strings.Join(want, " "), "")
+	case "setfuncs":
+		// SetFuncs(tb, funcs, up) = raw stores of closures over up (no metamethods), the same table returned
+		t1, t2 := w.mk(L, arg(2)), w.mk(L, arg(2))
+		tb, ok := t1.(*lua.LTable)
+		if !ok {
+			return
+		}
+		up := w.mk(L, arg(3))
+		f := func(L *lua.LState) int { L.Push(L.Get(lua.UpvalueIndex(1))); return 1 }
+		fobs := func(t lua.LValue) string {
+			r, ok := w.lcall(L, "fnsobs", 1, t)
+			if !ok {
+				return "?"
+			}
+			return "s" + hexOf(string(r[0].(lua.LString)))
+		}
+		w.lcall(L, "resetlog", 0)
+		var ret *lua.LTable
+		ok1 := w.protect(L, func(L *lua.LState) { ret = L.SetFuncs(tb, map[string]lua.LGFunction{"f1": f, "f2": f}, up) })
+		got := []string{w.enc(lbool(ok1)), w.enc(lbool(ret == tb)), fobs(t1), w.logOf(L)}
+		_, ok2 := w.lcall(L, "l_setfuncs", 0, t2, up)
+		want := []string{w.enc(lbool(ok2)), "T", fobs(t2), w.logOf(L)}
+		w.emit("eq "+label+" "+strings.Join(got, " ")+" | "+strings.Join(want, " "), "")
 	default:
 		panic("bad obj op " + name)
 	}
@@ -426,6 +563,20 @@ func genObjOp(r *Rng) []string {
 			return Pick(r, objs)
 		}
 		return Pick(r, all)
+	}
+	if r.Chance(7) { // environments, whole-table traversal, registration helpers
+		switch c := r.Intn(100); {
+		case c < 25:
+			return []string{"obj", "getfenv", Pick(r, []string{"envfn", "fn", "gofn", "ud", "udidx", "thread", "plain", "n1", "nil", "sa"})}
+		case c < 60:
+			return []string{"obj", "setfenv", Pick(r, []string{"envfn", "envfn", "gofn", "ud", "thread"}), Pick(r, []string{"envtbl", "envtbl", "envtbl", "empty", "n1", "nil", "sa"})}
+		case c < 80:
+			return []string{"obj", "foreach", Pick(r, []string{"plain", "empty", "mixed", "idxfn", "newidxtbl", "len7"})}
+		case c < 90:
+			return []string{"obj", "register"}
+		default:
+			return []string{"obj", "setfuncs", Pick(r, []string{"empty", "plain", "newidxfn", "newidxtbl"}), Pick(r, []string{"n1", "sa", "nil", "plain"})}
+		}
 	}
 	switch c := r.Intn(100); {
 	case c < 14:
